@@ -16,6 +16,10 @@ PROPS = {
                 technique="TLA+ Formula spec derives abstract presentation tokens; un-presentation lexers bind the three renderers to it (TLC-generated cases + TLC trace validation); ReactionRender.tla for printed reactions",
                 text="For every formula of the sliced exhaustive Formula_MC configs TLC derives the presentation tokens a faithful rendering shows; the LaTeX/Unicode/HTML outputs (functions and Substance/Species attributes) are un-presented and must equal them, the re-assembled text must parse to the spec's composition, phase_idx must equal the spec's; printed reactions/equilibria in four printers are compared with ReactionRender's token sequences; seeded deeper formulas are judged by TLC trace validation.",
                 note="un-presentation lexers (format tables) are trusted; bounded slices + seeded sampling beyond"),
+    "C14": dict(claimed=True, level=MC, design_ref="4/C14",
+                technique="TLA+ Periodic/Mass specs (exact big-number masses) with TLC-generated element, formula and mixture cases replayed into chempy; TLC trace validation of seeded formula masses",
+                text="TLC checks the reference table's consistency invariants and emits one case per element (symbol, name, weight, period/group); every formula of the Formula_MC slices carries its exact mass (limb arithmetic); MassMix enumerates mixtures with exact fractions; the code's table, atomic_number lookups in all letter cases, Substance.mass, mass_from_composition and mass_fractions must agree (1e-12 relative); seeded deeper formulas are judged by TLC in exact arithmetic.",
+                note="reference table frozen in spec/Periodic.tla after manual review (trusted base); float rounding tolerance 1e-12 relative"),
 }
 for _i in range(2, 21):
     PROPS.setdefault("C%02d" % _i, dict(claimed=False))
